@@ -90,6 +90,15 @@ func init() {
 				"untouched_compared":                      300,
 				"control_valid_sibling_accepted":          20,
 				"mined_blocks_reimported":                 6,
+				// uncle-window boundary of the block builder, by construction: a
+				// remembered side block whose parent is the 2nd / 7th (valid) and the
+				// 8th / 9th (outside) ancestor of the block the miner seals
+				"miner_uncle_candidate_at_depth:2":           1,
+				"miner_uncle_candidate_at_depth:6":           1,
+				"miner_uncle_candidate_at_depth:7":           1,
+				"miner_uncle_candidate_at_depth:8":           1,
+				"miner_late_start_uncle_included_at_depth:6": 1,
+				"miner_late_start_blocks_mined":              4,
 			}
 			for _, k := range corruptKinds {
 				g["corrupt_kind:"+k.name] = 4
